@@ -153,3 +153,8 @@ Definition limit_ok (code : list lins) : bool :=
   | [a; b; c; d; e] => lins_eqb a LLoadBudget && lins_eqb b (LCmpRax 2) && lins_eqb c LJbTerm && lins_eqb d LDecRax && lins_eqb e LStoreBudget
   | _ => false
   end.
+
+(** ** the frame set up by the prologue ([emit_prologue]): [pushes] callee-saved registers, then
+    [sub rsp, sub_bytes] for the stack temporaries.  On entry rsp + 8 is 16-byte aligned (SysV). *)
+Definition frame_ok (temps pushes sub_bytes : Z) : bool :=
+  (sub_bytes mod 8 =? 0) && (0 <=? temps) && (8 * temps <=? sub_bytes) && ((8 + 8 * pushes + sub_bytes) mod 16 =? 0).
